@@ -139,12 +139,15 @@ impl Loader for Pe {
         let pe = self.pe();
         let mut symbols = Vec::new();
         for export in pe.exports {
-            let offset = match export.offset {
-                Some(offset) => offset,
-                None => continue,
-            };
+            // forwarded exports have no code or data of their own
+            if export.offset.is_none() {
+                continue;
+            }
             if let Some(name) = export.name {
-                symbols.push(Symbol::new(name.to_string(), offset as u64));
+                symbols.push(Symbol::new(
+                    name.to_string(),
+                    (export.rva + pe.image_base) as u64,
+                ));
             }
         }
         symbols
